@@ -359,7 +359,15 @@ func cmdCheck(args []string) int {
 	}
 	genMs := time.Since(start).Milliseconds() - loadMs
 
-	scratch, err := os.MkdirTemp("/var/tmp", "govc-")
+	// GOVC_SCRATCH_DIR: parent of the query directory (default /var/tmp), so
+	// that concurrent users of the machine cannot clean it away mid-run
+	scratchParent := "/var/tmp"
+	if d := os.Getenv("GOVC_SCRATCH_DIR"); d != "" {
+		if err := os.MkdirAll(d, 0o755); err == nil {
+			scratchParent = d
+		}
+	}
+	scratch, err := os.MkdirTemp(scratchParent, "govc-")
 	if err != nil {
 		fmt.Fprintln(os.Stderr, "govc:", err)
 		return 2
